@@ -40,6 +40,7 @@ def dispatchState (tgt : Option FullTarget) (op : String) (args : List Sexp) : O
   | "target.frame", some t => let (t', out) := targetFrame t args; (some t', out)
   | "target.log", some t => let (t', out) := targetLog t; (some t', out)
   | "target.state", some t => (tgt, targetState t)
+  | "target.mem", some t => (tgt, targetMem t)
   | "target.tcpclose", some t => (some (Tgt.tcpClosed t), "ok")
   | _, _ => (tgt, dispatch op args)
 
